@@ -14,7 +14,7 @@ EXPLANATION = (
     "(R4) the immediate `return r` lies on the retryable() == false edge and the retry branch calls advance() and "
     "returns MaxRetryCountReached on None; (R5) Backoff::new(200 ms, max_retry_interval ms, 2, max_retry_count); "
     "(R6) listener spawns live outside the retry loop.")
-ASSUMPTIONS = ["Backoff::advance arithmetic is covered by the repository's unit tests (delay values are not decided here)"]
+ASSUMPTIONS = ["Duration arithmetic of Backoff::advance: only the clamping structure is decided (R7: stored state and returned delay are both bounded by max); the numeric delay sequence is left to the repository's unit tests"]
 NOT_DECIDED = "the delay values and the timing of attempts"
 QUICK_CONFIGS = ["default"]
 THOROUGH_CONFIGS = ["penguin-client-only", "penguin-native-tls"]
@@ -276,3 +276,44 @@ def check(facts, rep, tier, cfg):
             (rep.ok if found else rep.bad)("C19.R6", "listeners-outside-retry-loop", where,
                                            "handle_remote listeners spawned once, outside the retry loop" if found else "listener spawn site not found")
     rep.floor("C19.R4", "client retry loops", n4[0], 1)
+    # ---- R7 the back-off generator: stored state bounded, returned delay clamped, count bounded only when max_count != 0
+    rep.rule("C19.R7", "Backoff::advance: the delay returned and the state stored are both clamped by `max` (state = min(current, max) * mult "
+                       "or min(.., max)); None only on max_count != 0 && count >= max_count; reset restores `initial` and 0")
+    mux = facts.crate("penguin_mux")
+    k7 = 0
+    for b in (mux.bodies if mux else []):
+        if b.kind != "AssocFn" or b.j.get("impl_self", {}).get("adt", "").split("::")[-1] != "Backoff":
+            continue
+        if b.name == "advance":
+            tr = Tracer(facts, b)
+            rep.analysed(b)
+
+            def clamped(node):
+                node = strip(node)
+                return node.kind == "call" and node[6] == "min" and any(x.kind == "field" and x[2] == "max" for a in node[3] for x in walk(a))
+            for bi, blk in enumerate(b.blocks):
+                for s in blk["stmts"]:
+                    pr = s["lhs"].get("p") or [] if s["k"] == "Assign" else []
+                    fl = [e["f"] for e in pr if isinstance(e, dict) and "f" in e]
+                    if not fl or fl[-1] != "current":
+                        continue
+                    k7 += 1
+                    where = "%s (%s)" % (loc_str(s["loc"]), b.path)
+                    v = strip(tr.rvalue(s["rv"]))
+                    ok = clamped(v) or (v.kind == "call" and v[6] in ("mul", "saturating_mul", "checked_mul") and any(clamped(a) for a in v[3])) \
+                        or (v.kind == "bin" and v[1].startswith("Mul") and (clamped(v[2]) or clamped(v[3])))
+                    if ok:
+                        rep.ok("C19.R7", "state-bounded", where, "current <- min(current, max) * mult")
+                    else:
+                        rep.bad("C19.R7", "state-bounded", where,
+                                "the stored back-off state `current` grows without the clamp by `max` (%s): after enough consecutive failures the "
+                                "multiplication overflows and the client task panics instead of retrying forever" % fmt(v)[:80])
+            r0 = tr.local(0)
+            somes = [x for x in walk(r0) if x.kind == "agg" and x[2].endswith("Option::Some")]
+            k7 += 1
+            if somes and all(any(clamped(y) for y in walk(x)) for x in somes):
+                rep.ok("C19.R7", "delay-clamped", "%s (%s)" % (loc_str(b.loc), b.path), "Some(min(current, max))")
+            else:
+                rep.bad("C19.R7", "delay-clamped", "%s (%s)" % (loc_str(b.loc), b.path), "the returned delay is not clamped by `max`")
+    if mux is not None:
+        rep.floor("C19.R7", "Backoff::advance obligations", k7, 2)
